@@ -335,7 +335,7 @@ def gen_case(rng, tie):
     horizon = 20.0
     n_req = rng.randint(5, 40)
     if rng.random() < 0.03:
-        horizon, n_req = 600.0, rng.randint(400, 1200)        # long histories: hundreds of orders
+        horizon, n_req = 2500.0, rng.randint(2500, 4500)      # long histories: thousands of orders
     script = []
     t = 0.0
     for _ in range(n_req):
